@@ -8,7 +8,7 @@ BUDGET = {'quick': 20, 'thorough': 400}
 FLOOR = {'quick': 5000, 'thorough': 100000}
 EXHAUSTIVE = {'quick': True, 'thorough': True}
 RULE = ('acyclic @use/@forward graphs: main.scss (entry) plus modules a.scss and d/b.scss (quick: ALL graphs in which main has <= 2 '
-        'module loads and a has <= 2, targets later in the order, 3 URL spellings each; thorough adds ALL such graphs over 4 files with '
+        'module loads and a has <= 2, targets later in the order, 3 URL spellings each, and the same space over main.scss, k/s/y.scss and the directory index k/_index.scss spelled `k`/`..`, `k/.`/`../.`, `k/_index`; thorough adds ALL such graphs over 4 files with '
         '<= 2 loads per file) plus random acyclic graphs over 3..6 files, more placements (partials, d/e/) and 6 spellings.  Every '
         'module emits a unique marker rule and owns a counter variable; every user increments the counter of each module it can see '
         '(directly, or through one @forward) via the namespace and prints what it reads back.  Distinct by graph; non-trivial = at '
@@ -233,10 +233,12 @@ def acyclic_graphs(files, max_out, variants=('plain', 'dot', 'updown')):
         yield {'files': list(files), 'edges': [list(map(list, c)) for c in combo]}
 
 
-def _exhaust(ctx, files, max_out):
+def _exhaust(ctx, files, max_out, variants=('plain', 'dot', 'updown')):
     chunk = []
-    for idx, g in enumerate(acyclic_graphs(files, max_out)):
+    for idx, g in enumerate(acyclic_graphs(files, max_out, variants)):
         if idx % ctx.nshards != ctx.shard:
+            continue
+        if not lg.valid(g):
             continue
         chunk.append(g)
         if len(chunk) >= 300:
@@ -252,6 +254,10 @@ def worker(ctx):
     ok = _exhaust(ctx, ['main.scss', 'a.scss', 'd/b.scss'], 2)
     if ok:
         ctx.stat('exhaustive_3_files_completed')
+        # a directory-index module used from above (`k`, `k/.`, `k/_index`) and from below (`..`, `../.`, `../_index`)
+        ok = _exhaust(ctx, ['main.scss', 'k/s/y.scss', 'k/_index.scss'], 2, ('plain', 'enddot', 'underscore'))
+        if ok:
+            ctx.stat('exhaustive_3_files_index_completed')
     if ok and not ctx.quick:
         ctx.deadline -= BUDGET['thorough'] * 0.25
         ok = _exhaust(ctx, ['main.scss', 'a.scss', 'd/b.scss', 'd/_q.scss'], 2)
